@@ -14,6 +14,7 @@ import (
 	"runtime/pprof"
 	"sort"
 	"strings"
+	"sync"
 	"sync/atomic"
 	"time"
 
@@ -127,9 +128,18 @@ var (
 	profEquiv  = profile{"equivocation", withInvalid(set("A", "B", "nil")), allClaims}
 	profIDs    = profile{"id-variants", withInvalid(set("A", "A'", "A~", "nil")), set("p:A")}
 	profSimple = profile{"simple", withInvalid(set("A", "B", "A'", "nil")), set("p:A", "q:B")}
+	profEquiv1 = profile{"equivocation-1", withInvalid(set("A", "B", "nil")), set("p:A", "q:B")}
+	profIDs0   = profile{"id-variants-0", withInvalid(set("A", "A'", "A~")), set("p:A")}
 )
 
-func profilesFor(n int, thorough bool) []profile {
+func profilesFor(n int, thorough, quickVec bool) []profile {
+	if dbg := os.Getenv("C02_PROFILE"); dbg != "" {
+		for _, p := range []profile{profFull, profEquiv, profIDs, profSimple, profEquiv1, profIDs0} {
+			if p.name == dbg {
+				return []profile{p}
+			}
+		}
+	}
 	switch {
 	case n <= 2:
 		return []profile{profFull}
@@ -137,10 +147,12 @@ func profilesFor(n int, thorough bool) []profile {
 		return []profile{profFull}
 	case n == 3:
 		return []profile{profEquiv, profIDs}
+	case thorough && quickVec:
+		return []profile{profEquiv, profIDs, profSimple}
 	case thorough:
 		return []profile{profEquiv, profIDs}
 	default:
-		return []profile{profSimple}
+		return []profile{profEquiv1, profIDs0}
 	}
 }
 
@@ -183,6 +195,15 @@ func main() {
 			vecs = append(vecs, i)
 		}
 	}
+	if dbg := os.Getenv("C02_VECS"); dbg != "" { // measurement aid: restrict the vectors (evidence says so)
+		vecs = nil
+		for _, x := range strings.Split(dbg, ",") {
+			var i int
+			fmt.Sscan(x, &i)
+			vecs = append(vecs, i)
+		}
+		r.NotExhaustive("C02_VECS debugging restriction")
+	}
 
 	// ---- E3: commit matrix --------------------------------------------------------------------
 	nKinds := quickFlagKinds
@@ -201,39 +222,75 @@ func main() {
 
 	// ---- E2: vote sets ------------------------------------------------------------------------
 	maxStates := int64(3_000_000)
-	var jobLines []string
+	var jobs []*job
 	for _, vi := range vecs {
 		pw := fam[vi].pw
 		for ti, t := range voteTypes {
-			for _, pr := range profilesFor(len(pw), r.Thorough()) {
-				if r.Expired() {
-					r.NotExhaustive(fmt.Sprintf("deadline before vector=%s type=%s profile=%s", vecName(pw), typeNames[t], pr.name))
-					continue
-				}
+			for _, pr := range profilesFor(len(pw), r.Thorough(), fam[vi].quick) {
 				j := newJob(vi, pw, ti, t, universeFor(pw, t), pr.name, pr.kinds, pr.claims)
-				t0 := time.Now()
-				s := j.explore(maxStates)
-				if !s.complete {
-					r.NotExhaustive(fmt.Sprintf("vector=%s type=%s profile=%s stopped at %d states (deadline or state cap)", vecName(pw), typeNames[t], pr.name, s.states))
-				}
-				s.digest()
-				r.Add("states", s.states)
-				r.Add("transitions", s.transitions)
-				r.Add("traces_validated_against_impl", s.transitions)
-				r.Add("self_loop_transitions", s.selfLoops)
-				r.Add("subsumed_successors", s.subsumed)
-				r.Add("revisited_successors", s.revisits)
-				r.Add("states_with_majority", s.majStates)
-				r.Add("makecommit_verifycommit_checks", s.commitChecks)
-				r.Add("clone_vs_replay_validations", s.replayChecks)
-				r.Add("voteset_jobs", 1)
-				r.Max("max_depth", int64(s.maxDepth))
-				jobLines = append(jobLines, fmt.Sprintf("%s/%s/%s: %d states, %d transitions, depth %d, fixpoint=%v, %.1fs",
-					vecName(pw), typeNames[t], pr.name, s.states, s.transitions, s.maxDepth, s.complete, time.Since(t0).Seconds()))
-				boundaryStats(j, s)
-				sampleFrom(j, s)
+				j.cryptoEverywhere = len(pw) <= 2 || (r.Thorough() && len(pw) <= 3)
+				jobs = append(jobs, j)
 			}
 		}
+	}
+	// Run up to 4 searches at a time (each is parallel inside; the first BFS levels are narrow),
+	// the largest validator sets first; results are post-processed in the canonical job order.
+	results := make([]*search, len(jobs))
+	secs := make([]float64, len(jobs))
+	order := make([]int, len(jobs))
+	for i := range order {
+		order[i] = i
+	}
+	sort.SliceStable(order, func(a, b int) bool { return jobs[order[a]].n > jobs[order[b]].n })
+	var next int64 = -1
+	var wg sync.WaitGroup
+	for w := 0; w < 4; w++ {
+		wg.Add(1)
+		go func() {
+			defer wg.Done()
+			for {
+				k := int(atomic.AddInt64(&next, 1))
+				if k >= len(order) {
+					return
+				}
+				i := order[k]
+				if r.Expired() {
+					continue
+				}
+				t0 := time.Now()
+				results[i] = jobs[i].explore(maxStates)
+				secs[i] = time.Since(t0).Seconds()
+			}
+		}()
+	}
+	wg.Wait()
+	var jobLines []string
+	for i, j := range jobs {
+		s := results[i]
+		if s == nil {
+			r.NotExhaustive(fmt.Sprintf("deadline before %s profile=%s", j.label(), j.profile))
+			continue
+		}
+		if !s.complete {
+			r.NotExhaustive(fmt.Sprintf("%s profile=%s stopped at %d states (deadline or state cap)", j.label(), j.profile, s.states))
+		}
+		s.digest()
+		r.Add("states", s.states)
+		r.Add("transitions", s.transitions)
+		r.Add("traces_validated_against_impl", s.transitions)
+		r.Add("self_loop_transitions", s.selfLoops)
+		r.Add("subsumed_successors", s.subsumed)
+		r.Add("revisited_successors", s.revisits)
+		r.Add("states_with_majority", s.majStates)
+		r.Add("makecommit_verifycommit_checks", s.commitChecks)
+		r.Add("clone_vs_replay_validations", s.replayChecks)
+		r.Add("voteset_jobs", 1)
+		r.Max("max_depth", int64(s.maxDepth))
+		jobLines = append(jobLines, fmt.Sprintf("%s/%s/%s: %d states, %d transitions, depth %d, fixpoint=%v, %.1fs",
+			vecName(j.pw), typeNames[j.typ], j.profile, s.states, s.transitions, s.maxDepth, s.complete, secs[i]))
+		boundaryStats(j, s)
+		sampleFrom(j, s)
+		results[i] = nil
 	}
 	r.Set("voteset_jobs_detail", jobLines)
 	if os.Getenv("VERIF_VERBOSE") != "" {
@@ -243,10 +300,8 @@ func main() {
 	}
 	reportCandidates()
 
-	// ---- E2 on HeightVoteSet (thorough) --------------------------------------------------------
-	if r.Thorough() {
-		runHVS()
-	}
+	// ---- E2 on HeightVoteSet (depth 5 on two vectors in thorough, depth 3 on one in quick) ------
+	runHVS()
 
 	// ---- guards -------------------------------------------------------------------------------
 	for _, k := range sortedKinds() {
